@@ -24,7 +24,7 @@ TARGETS = ["IbicusModel.Props.C19"]
 GEN = []
 
 SEASON_CODE = {"Winter": 0, "Spring": 1, "Summer": 2, "Autumn": 3}
-SHAPES = [(1, 1), (2, 3), (3, 1)]
+SHAPES = [(1, 1), (2, 3), (3, 1), (1, 3), (1, 2), (2, 1)]  # singleton grid dimensions on either axis included
 TYPES = ["higher", "lower", "between", "outside"]
 SCOPES = ["overall", "day", "month", "season"]
 FIELDS = ["inst", "filt", "prob", "years", "annual", "spells", "extent", "clusters", "pct", "annualv", "intensity", "alias"]
@@ -422,17 +422,46 @@ def run_real(case, m):
 
 
 # ------------------------------------------------------------------ the property's oracle on the real outputs
+METHODS = ["inst", "filt", "prob", "annual", "spells", "spells0", "extent", "clusters", "pct", "annualv", "intensity"]
+
+
+def malformed(case, out):
+    """exceptions on a well-formed request and results that do not have the documented shape (checked before anything
+    else is read from the results): [(kind, message)]"""
+    bad = []
+    I, J, T = case["I"], case["J"], case["T"]
+    ny = len(set(years_of(case["time"])))
+    want = {"inst": (T, I, J), "filt": (T, I, J), "prob": (I, J), "annual": (ny, I, J), "pct": (I, J), "annualv": (ny, I, J),
+            "intensity": (I, J), "spells": None, "spells0": None, "extent": None, "clusters": None}
+    for name in METHODS:
+        r = out.get(name)
+        if isinstance(r, str):
+            bad.append((f"{name}-raises", f"{name}: unexpected {r} on a well-formed request"))
+        elif not isinstance(r, np.ndarray):
+            bad.append((f"{name}-shape", f"{name}: returned {type(r).__name__}, an array is documented"))
+        elif want[name] is None:
+            if r.ndim != 1 or (name == "extent" and r.size > T):
+                bad.append((f"{name}-shape", f"{name}: result of shape {r.shape}, a 1-d table is documented" + (f" with at most {T} rows" if name == "extent" else "")))
+        elif r.shape != want[name]:
+            bad.append((f"{name}-shape", f"{name}: result of shape {r.shape}, documented shape {want[name]} for a dataset of shape {(T, I, J)}"))
+    return bad
+
+
 def oracle(case, out):
-    """direct check of the property statement on the real results (no model involved)"""
+    """direct check of the property statement on the real results (no model involved); never raises: whatever the real
+    code returned on a well-formed request that cannot be judged is itself a finding carrying the input"""
+    try:
+        bad = malformed(case, out)
+        return bad if bad else _oracle(case, out)
+    except Exception as e:  # noqa: BLE001
+        return [("malformed_result", f"the results of the public methods cannot be evaluated ({type(e).__name__}: {str(e)[:120]})")]
+
+
+def _oracle(case, out):
     bad = []
     I, J, T = case["I"], case["J"], case["T"]
     x = case["x"]
     inst = out["inst"]
-    for name in ["inst", "filt", "prob", "annual", "spells", "spells0", "extent", "clusters", "pct", "annualv", "intensity"]:
-        if isinstance(out[name], str):
-            bad.append((f"{name}-raises", f"{name}: unexpected {out[name]} on a well-formed request"))
-    if bad:
-        return bad
     ref = ref_instances(case)
     if inst.shape != x.shape or not np.array_equal(inst, ref):
         k = np.argwhere(inst != ref)
@@ -533,6 +562,16 @@ def driver_line_perm(case, out, rng):
     labs = C.ilist(unperm(list(out["labels"].ravel()), I * J)) if "labels" in out else "none"
     return (f"allperm {C.ilist(perm)} {case['ty']} {T} {I} {J} {C.rlist(unperm(list(case['vals']), I * J))} {grp} {yrs} {s0} {s1} "
             f"{case['minlen']} {labs}")
+
+
+def safe_line(case, out, rng=None):
+    """the driver line for a case, or None when the real results are malformed (already reported by the oracle)"""
+    try:
+        if case["expect_error"] is None and malformed(case, out):
+            return None
+        return driver_line_perm(case, out, rng) if rng is not None else driver_line(case, out)
+    except Exception:  # noqa: BLE001
+        return None
 
 
 def compare(case, out, got, res):
@@ -656,6 +695,8 @@ def run_qcase(qc, res):
         return None, None, [("from_quantile_raises", f"from_quantile(threshold_type={ty!r}) raised {type(e).__name__}: {str(e)[:120]}")]
     if x.tobytes() != snap:
         problems.append(("dataset_unchanged", "from_quantile modified the dataset passed in"))
+    if not isinstance(inst, np.ndarray) or inst.shape != x.shape:
+        return None, None, problems + [("inst-shape", f"inst: result of shape {getattr(inst, 'shape', None)}, documented shape {x.shape} (metric built by from_quantile)")]
     # thresholds as the driver prints them
     code_of = (lambda k: SEASON_CODE[k]) if scope == "season" else (lambda k: int(k))
 
@@ -777,12 +818,13 @@ def run(tier, res, force_search=False):
                                          desc, size))
         res.count((case["ty"], case["loc"], case["scope"], case["I"], case["J"], case["tkind"], nyears, case["style"], outcome),
                   nontrivial, sample={**describe(case, with_data=False), "instances": int(out["inst"].sum()) if isinstance(out["inst"], np.ndarray) else out["inst"]})
-        if case["T"] <= 120 and rng.random() < 0.4:
-            lines.append(driver_line_perm(case, out, rng))
-            res.extra["allperm_lines"] = res.extra.get("allperm_lines", 0) + 1
-        else:
-            lines.append(driver_line(case, out))
-        expect.append(("all", case, out))
+        use_perm = case["T"] <= 120 and rng.random() < 0.4
+        ln = safe_line(case, out, rng if use_perm else None)
+        if ln is not None:
+            lines.append(ln)
+            expect.append(("all", case, out))
+            if use_perm:
+                res.extra["allperm_lines"] = res.extra.get("allperm_lines", 0) + 1
         # the documented season rule (Model.Metrics.seasonOfMonth) against utils.season on this axis
         with warnings.catch_warnings():
             warnings.simplefilter("ignore")
@@ -900,8 +942,10 @@ def run(tier, res, force_search=False):
                 problems_all.append((kd, b + f" (call {stepno + 1} of a sequence on one metric object: {history})", desc, size))
             snap = dict(case)
             snap["time"] = case["time"].copy()
-            lines.append(driver_line(snap, out))
-            expect.append(("all", snap, out))
+            ln = safe_line(snap, out)
+            if ln is not None:
+                lines.append(ln)
+                expect.append(("all", snap, out))
         lines.append(seq_head + " " + " ".join(seq_ops))
         expect.append(("seq", {**describe(case, with_data=False), "sequence_on_one_metric_object": list(history)}, "/".join(seq_real)))
         res.count(("sequence", tuple(history), case["ty"], case["scope"], case["loc"]), True)
@@ -931,7 +975,7 @@ def run(tier, res, force_search=False):
         case["nonfinite"] = {"positions": sorted(pos)[:20], "count": len(pos)}
         check_calendar(case["time"], problems_all, res, case["time_kind"])
         out, probs = run_real(case, make_metric(case))
-        if isinstance(out["inst"], np.ndarray) and isinstance(out["filt"], np.ndarray):
+        if not malformed(case, out):
             # extended-value model (Model.Metrics.condX / filtG over XVal) on the same entries, thresholds per entry
             def thr_of(v, t, i, j):
                 if case["scope"] != "overall":
@@ -959,7 +1003,10 @@ def run(tier, res, force_search=False):
     for k in range(n_q):
         qc = gen_qcase(rng, tier)
         check_calendar(qc["time"], problems_all, res, qc["time_kind"])
-        line, exp, probs = run_qcase(qc, res)
+        try:
+            line, exp, probs = run_qcase(qc, res)
+        except Exception as e:  # noqa: BLE001
+            line, exp, probs = None, None, [("malformed_result", f"from_quantile metric: results cannot be evaluated ({type(e).__name__}: {str(e)[:100]})")]
         for kind, p in probs:
             problems_all.append((kind, p, describe_q(qc), qc["T"] * qc["I"] * qc["J"]))
         res.count(("fromq", qc["ty"], qc["loc"], qc["scope"], qc["I"], qc["J"], qc["dyadic"]), True)
@@ -998,7 +1045,10 @@ def run(tier, res, force_search=False):
         for (what, case, exp), g in zip(expect, got):
             res.cov["traces_validated_against_impl"] += 1
             if what == "all":
-                mm = compare(case, exp, g, res)
+                try:
+                    mm = compare(case, exp, g, res)
+                except Exception as e:  # noqa: BLE001
+                    mm = [f"real results cannot be compared ({type(e).__name__}: {str(e)[:80]})"]
                 if mm:
                     mismatches.append({"op": "all", "case": describe(case), "fields": mm[:4], "model": g[:300]})
             elif what == "fromq":
